@@ -168,29 +168,36 @@ pub fn read_step<const LEN: usize, const RP: usize, const K: usize, const CANCEL
     crate::sock::set_read_poll_limit(K + 1);
     let mut conn = ReadConnection::verif_from_parts(ScriptRead::new(&steps, K), buffer, RP, 0, 3);
 
-    let max_polls = K + 1;
-    let mut polls = 0;
+    // Driver with *concrete* trip counts (every poll site is guarded instead of the loops being
+    // left early): CBMC keeps unrolling a loop whose exit test became symbolic after a merge.
+    // Every poll consumes at least one script step, so a call completes within K + 1 polls in
+    // total; future number f only exists after f abandonments, i.e. it gets at most K + 1 - f.
     let mut cancels = 0;
     let mut result: Option<zlink_core::Result<()>> = None;
-    // Outer loop: one iteration per (re-)created future.
     let mut f = 0;
-    while f <= K && result.is_none() && polls < max_polls {
-        let fut = conn.verif_read_from_socket();
-        let mut fut = core::pin::pin!(fut);
-        while polls < max_polls {
-            polls += 1;
-            match poll_once(fut.as_mut()) {
-                Poll::Ready(r) => {
-                    result = Some(r);
-                    break;
-                }
-                Poll::Pending => {
-                    if CANCEL && nd.bool() {
-                        cancels += 1;
-                        break; // drop the future here, start a new receive later
+    while f <= K {
+        if result.is_none() {
+            let fut = conn.verif_read_from_socket();
+            let mut fut = core::pin::pin!(fut);
+            let mut dropped = false;
+            let mut p = 0;
+            while p + f <= K {
+                if result.is_none() && !dropped {
+                    match poll_once(fut.as_mut()) {
+                        Poll::Ready(r) => result = Some(r),
+                        Poll::Pending => {
+                            if CANCEL && nd.bool() {
+                                cancels += 1;
+                                dropped = true; // abandon this receive here, start a new one later
+                            }
+                        }
                     }
                 }
+                p += 1;
             }
+        }
+        if !CANCEL {
+            break;
         }
         f += 1;
     }
@@ -299,40 +306,42 @@ pub fn cancel_relational<const LEN: usize, const RP: usize, const K: usize>(nd: 
         }
         ReadConnection::verif_from_parts(ScriptRead::new(&steps, K), buffer, RP, 0, 3)
     };
-    crate::sock::set_read_poll_limit(2 * (K + 1));
+    crate::sock::set_read_poll_limit(K + 1);
     let mut a = mk(&pre);
     let mut b = mk(&pre);
-    let max_polls = K + 1;
-
-    // B: one future, never dropped.
+    // B: one future, never dropped (concrete trip counts, see `read_step`).
     let rb = {
         let fut = b.verif_read_from_socket();
         let mut fut = core::pin::pin!(fut);
         let mut r = Poll::Pending;
         let mut p = 0;
-        while p < max_polls && r.is_pending() {
-            r = poll_once(fut.as_mut());
+        while p <= K {
+            if r.is_pending() {
+                r = poll_once(fut.as_mut());
+            }
             p += 1;
         }
         r
     };
     // A: dropped and re-created at symbolic suspension points.
     let mut ra = Poll::Pending;
-    let mut polls = 0;
     let mut cancels = 0;
     let mut f = 0;
-    while f <= K && ra.is_pending() && polls < max_polls {
-        let fut = a.verif_read_from_socket();
-        let mut fut = core::pin::pin!(fut);
-        while polls < max_polls {
-            polls += 1;
-            ra = poll_once(fut.as_mut());
-            if ra.is_ready() {
-                break;
-            }
-            if nd.bool() {
-                cancels += 1;
-                break;
+    while f <= K {
+        if ra.is_pending() {
+            let fut = a.verif_read_from_socket();
+            let mut fut = core::pin::pin!(fut);
+            let mut dropped = false;
+            let mut p = 0;
+            while p + f <= K {
+                if ra.is_pending() && !dropped {
+                    ra = poll_once(fut.as_mut());
+                    if ra.is_pending() && nd.bool() {
+                        cancels += 1;
+                        dropped = true;
+                    }
+                }
+                p += 1;
             }
         }
         f += 1;
@@ -508,6 +517,14 @@ pub fn read_probe<const PEND: bool>(nd: &mut Nd) {
     core::mem::forget(conn);
 }
 
+/// A buffer of `len` bytes whose capacity already covers every growth step up to the limit (and
+/// two more), so that `extend` never reallocates (see `stubs::no_realloc`).
+pub fn roomy(len: usize, fill: u8) -> Vec<u8> {
+    let mut v = Vec::with_capacity(MAX + 2 * STEP);
+    v.resize(len, fill);
+    v
+}
+
 /// Development probes: which symbolic ingredient keeps the read loop from being bounded in symex.
 pub fn read_probe2<const V: usize>(nd: &mut Nd) {
     let mut steps = [Step::Eof; STEPS];
@@ -529,5 +546,59 @@ pub fn read_probe2<const V: usize>(nd: &mut Nd) {
     let (_buf, read_pos, _) = conn.verif_parts();
     core::mem::forget(r);
     assert!(read_pos <= 8, "X.probe");
+    core::mem::forget(conn);
+}
+
+/// Layer 2 from a pre-loaded buffer: two frames `F1 NUL F2 NUL` (arbitrary non-NUL content) already
+/// buffered behind one consumed byte, followed by the sentinel NUL — the state layer 1 shows
+/// `read_from_socket` leaves behind. Two receives must yield each frame's own verdict, and the
+/// cursors must then be reset (everything consumed, nothing else touched).
+pub fn recv_buffered<const N1: usize, const N2: usize>(nd: &mut Nd) {
+    let mut buffer = vec![0u8; 2 * STEP];
+    buffer[0] = b'X';
+    let mut f1 = [0u8; 4];
+    let mut f2 = [0u8; 4];
+    let mut i = 0;
+    while i < N1 {
+        let b = nd.u8();
+        nd.assume(b != 0);
+        f1[i] = b;
+        buffer[1 + i] = b;
+        i += 1;
+    }
+    let mut i = 0;
+    while i < N2 {
+        let b = nd.u8();
+        nd.assume(b != 0);
+        f2[i] = b;
+        buffer[2 + N1 + i] = b;
+        i += 1;
+    }
+    let read_pos = 1 + N1 + 1 + N2 + 1;
+    crate::sock::set_read_poll_limit(1);
+    let mut conn = ReadConnection::verif_from_parts(ScriptRead::idle(), buffer, read_pos, 1, 3);
+    let e1 = ref_u8_doc(&f1[..N1]);
+    let e2 = ref_u8_doc(&f2[..N2]);
+    let want = |e: Option<u8>| match e {
+        Some(v) => Got::Val(v),
+        None => Got::DecodeErr,
+    };
+    let g1 = recv_u8(&mut conn);
+    assert!(g1 == want(e1), "C01.first_frame_yields_its_own_result");
+    {
+        let (_, rp, mp) = conn.verif_parts();
+        assert!(rp == read_pos && mp == 2 + N1, "C01.a_frame_consumes_exactly_itself");
+    }
+    let g2 = recv_u8(&mut conn);
+    assert!(g2 == want(e2), "C01.second_frame_unaffected_by_the_first");
+    {
+        let (_, rp, mp) = conn.verif_parts();
+        assert!(rp == 0 && mp == 0, "C01.cursors_reset_after_the_last_buffered_frame");
+    }
+    assert!(conn.read_half().calls == 0, "C01.buffered_frames_served_before_reading");
+    cover!(nd, e1.is_none() && e2.is_some(), "bad frame followed by a good one");
+    if N1 >= 2 {
+        cover!(nd, e1.is_some() && f1[N1 - 1] == b' ', "padded frame followed by another");
+    }
     core::mem::forget(conn);
 }
